@@ -50,6 +50,7 @@ type ModeObs struct {
 }
 
 type InstObs struct {
+	Aliased           bool      `json:"aliased"`
 	Modes             []ModeObs `json:"modes"`
 	OK                bool      `json:"ok"`
 	Present           bool      `json:"present"`
@@ -292,6 +293,11 @@ func runPluginInstall() int {
 						for a, fn := range extraFile {
 							if fn == de.Name() {
 								atom = a
+							}
+						}
+						if si, err := os.Stat(filepath.Join(src, de.Name())); err == nil {
+							if di, err := os.Stat(filepath.Join(pdir, de.Name())); err == nil && os.SameFile(si, di) {
+								obs.Aliased = true // the installed "copy" IS the source file (a hard link): whoever edits one edits the other
 							}
 						}
 						if sm, ok := srcModes[atom]; ok {
